@@ -90,8 +90,6 @@ Proof.
   intros MS M. destruct m as [a| |]; destruct o as [b [|]| | | |s]; simpl in M; try discriminate; simpl.
   - apply reply_transfer; assumption.
   - auto.
-  - discriminate.
-  - reflexivity.
 Qed.
 
 Lemma same_transfer m1 m2 o1 o2 :
@@ -128,24 +126,104 @@ Qed.
 Lemma redirects_b_thyp c e : ov_not_success_b c && redirects_not_success_b e = thyp c e.
 Proof. reflexivity. Qed.
 
+Lemma dec_transfer fx file c o nv sc w od :
+  oracle_ok nv o = true -> wle (xwaiver fx file c sc) w ->
+  seen_match (seen_of_hfinal (entry_http fx false file c o sc)) od = true ->
+  obs_ok w c nv (hyp_never_success c sc) (demand_of sc) od = true.
+Proof.
+  intros OK L M. destruct sc as [hs cause|v|p].
+  - eapply seen_transfer; [apply model_seen_hfinal | exact M |].
+    eapply seen_ok_w_mono; [exact L|]. apply http_entry_meets_spec; [exact OK | exact I].
+  - eapply seen_transfer; [apply model_seen_hfinal | exact M |].
+    eapply seen_ok_w_mono; [exact L|]. apply http_entry_meets_spec; [exact OK | exact I].
+  - unfold entry_http, x_http_respond in M. simpl in M.
+    destruct od as [? [|]| | | |?]; simpl in M; try discriminate; reflexivity.
+Qed.
+
+Lemma prx_transfer fx file c o nv sc w op :
+  oracle_ok nv o = true -> wle (xwaiver fx file c sc) w ->
+  seen_match (seen_of_hfinal (entry_http fx true file c o sc)) op = true ->
+  obs_ok w c nv (hyp_never_success c sc) (demand_of sc) op = true.
+Proof.
+  intros OK L M.
+  eapply seen_transfer; [apply model_seen_hfinal | exact M |].
+  eapply seen_ok_w_mono; [exact L|]. apply http_entry_meets_spec; [exact OK|]. destruct sc; auto.
+Qed.
+
+Lemma env_transfer fx file c o nv sc w oe :
+  oracle_ok nv o = true -> wle (xwaiver fx file c sc) w ->
+  seen_match (seen_of_gfinal (entry_grpc fx file c o sc)) oe = true ->
+  obs_ok w c nv (hyp_never_success c sc) (demand_of sc) oe = true.
+Proof.
+  intros OK L M. destruct sc as [hs cause|v|p].
+  - eapply seen_transfer; [apply model_seen_gfinal | exact M |].
+    eapply seen_ok_w_mono; [exact L|]. apply grpc_entry_meets_spec; [exact OK | exact I].
+  - eapply seen_transfer; [apply model_seen_gfinal | exact M |].
+    eapply seen_ok_w_mono; [exact L|]. apply grpc_entry_meets_spec; [exact OK | exact I].
+  - unfold entry_grpc, x_grpc_respond in M. simpl in M.
+    destruct oe as [? [|]| | | |?]; simpl in M; try discriminate; reflexivity.
+Qed.
+
+Lemma match_same_model m o1 o2 :
+  seen_match m o1 = true -> seen_match m o2 = true -> same_reply (seen_of o1) (seen_of o2) = true.
+Proof.
+  intros M1 M2.
+  destruct m as [a| |]; destruct o1 as [b1 [|]| | | |s1]; simpl in M1; try discriminate; simpl; try reflexivity;
+    destruct o2 as [b2 [|]| | | |s2]; simpl in M2; try discriminate; simpl; try reflexivity.
+  unfold reply_match in M1, M2.
+  repeat (apply andb_true_iff in M1 as [M1 ?]). repeat (apply andb_true_iff in M2 as [M2 ?]).
+  apply Z.eqb_eq in M1, M2.
+  repeat match goal with X : option_eqb String.eqb (r_loc _) (r_loc _) = true |- _ => apply opt_str_eqb_eq in X end.
+  rewrite <- M1, <- M2, Z.eqb_refl. simpl.
+  match goal with X1 : r_loc a = r_loc b1, X2 : r_loc a = r_loc b2 |- _ => rewrite <- X1, <- X2 end.
+  apply option_eqb_str_refl.
+Qed.
+
+Lemma entries_same_transfer fx file c o sc od op oe :
+  xguard_F2 (loaded fx file c) sc = false ->
+  seen_match (seen_of_hfinal (entry_http fx false file c o sc)) od = true ->
+  seen_match (seen_of_hfinal (entry_http fx true file c o sc)) op = true ->
+  seen_match (seen_of_gfinal (entry_grpc fx file c o sc)) oe = true ->
+  same_reply (seen_of od) (seen_of oe) && same_reply (seen_of op) (seen_of oe) && same_reply (seen_of od) (seen_of op) = true.
+Proof.
+  intros G MD MP ME.
+  destruct sc as [hs cause|v|p].
+  - destruct (entries_same fx false file c o (XFail hs cause) G I) as [S1 S2].
+    destruct (entries_same fx true file c o (XFail hs cause) G I) as [S3 _].
+    apply andb_true_iff; split; [apply andb_true_iff; split|].
+    + eapply same_transfer; [exact MD | exact ME | exact S1].
+    + eapply same_transfer; [exact MP | exact ME | exact S3].
+    + rewrite S2 in MP. eapply match_same_model; eassumption.
+  - destruct (entries_same fx false file c o (XPanic v) G I) as [S1 S2].
+    destruct (entries_same fx true file c o (XPanic v) G I) as [S3 _].
+    apply andb_true_iff; split; [apply andb_true_iff; split|].
+    + eapply same_transfer; [exact MD | exact ME | exact S1].
+    + eapply same_transfer; [exact MP | exact ME | exact S3].
+    + rewrite S2 in MP. eapply match_same_model; eassumption.
+  - unfold entry_http, x_http_respond in MD. unfold entry_grpc, x_grpc_respond in ME. simpl in MD, ME.
+    assert (E1 : seen_of od = SSuccess) by (destruct od as [? [|]| | | |?]; simpl in *; try discriminate; reflexivity).
+    assert (E2 : seen_of oe = SSuccess) by (destruct oe as [? [|]| | | |?]; simpl in *; try discriminate; reflexivity).
+    rewrite E1, E2. destruct (seen_of op); reflexivity.
+Qed.
+
 Theorem eval_sound fx k :
   corr fx k = true -> oracle_ok (k_nv k) (k_or k) = true -> prop_w (waived fx k) k = true.
 Proof.
   intros C OK. unfold corr in C.
   repeat (apply andb_true_iff in C as [C ?]).
-  match goal with H : seen_match _ (k_http k) = true |- _ => rename H into MH end.
-  match goal with H : seen_match _ (k_grpc k) = true |- _ => rename H into MG end.
-  match goal with H : seen_match _ (k_dec k) = true |- _ => rename H into MD end.
-  match goal with H : seen_match _ (k_prx k) = true |- _ => rename H into MP end.
-  match goal with H : seen_match _ (k_env k) = true |- _ => rename H into ME end.
-  match goal with H : list_eqb String.eqb _ (k_up k) = true |- _ => apply str_list_eqb_eq in H; rename H into UP end.
-  match goal with H : mk_ok _ = true |- _ => rename H into MK end.
+  match goal with X : seen_match _ (k_http k) = true |- _ => rename X into MH end.
+  match goal with X : seen_match _ (k_grpc k) = true |- _ => rename X into MG end.
+  match goal with X : seen_match _ (k_dec k) = true |- _ => rename X into MD end.
+  match goal with X : seen_match _ (k_prx k) = true |- _ => rename X into MP end.
+  match goal with X : seen_match _ (k_env k) = true |- _ => rename X into ME end.
+  match goal with X : list_eqb String.eqb _ (k_up k) = true |- _ => apply str_list_eqb_eq in X; rename X into UP end.
+  match goal with X : mk_ok _ = true |- _ => rename X into MK end.
   set (c := k_cfg k) in *. set (e := k_err k) in *. set (sc := to_x (k_sc k) e) in *.
   set (c' := loaded fx (k_file k) c) in *. set (o := k_or k) in *. set (nv := k_nv k) in *.
-  unfold prop_w. fold c e sc nv. rewrite OK, MK. simpl.
+  unfold prop_w. fold c e sc nv o. rewrite OK, MK. simpl. rewrite andb_true_r.
   (* the waiver's status flag decides the "identically" clauses *)
-  assert (WS : w_status (waived fx k) = false -> guard_F2 c' e = false /\ xguard_F2 c' sc = false).
-  { unfold waived, g_F2; simpl. fold c e sc c'. intro W.
+  assert (WS : g_F2 fx k || g_F4 fx k = false -> guard_F2 c' e = false /\ xguard_F2 c' sc = false).
+  { unfold g_F2; simpl. fold c e sc c'. intro W.
     apply orb_false_iff in W as [W _]. apply orb_false_iff in W. exact W. }
   apply andb_true_iff; split.
   - (* translators *)
@@ -155,75 +233,15 @@ Proof.
       eapply seen_ok_w_mono; [apply waived_covers_t|]. apply http_translator_meets_spec. exact OK.
     + eapply seen_transfer; [apply model_seen_ghandle | exact MG |].
       eapply seen_ok_w_mono; [apply waived_covers_t|]. apply grpc_translator_meets_spec. exact OK.
-    + destruct (w_status (waived fx k)) eqn:W; [reflexivity|]. simpl.
+    + destruct (g_F2 fx k || g_F4 fx k) eqn:W; [reflexivity|]. simpl.
       eapply same_transfer; [exact MH | exact MG |]. apply translators_same. apply (proj1 (WS eq_refl)).
   - (* entry points *)
-    assert (XP : forall p, k_sc k = SProxy p -> seen_of (k_dec k) = SSuccess /\ seen_of (k_env k) = SSuccess).
-    { intros p E. unfold sc in MD, ME. rewrite E in MD, ME. simpl in MD, ME.
-      unfold entry_http, x_http_respond in MD. unfold entry_grpc, x_grpc_respond in ME. simpl in MD, ME.
-      split; [destruct (k_dec k) as [? [|]| | | |?] | destruct (k_env k) as [? [|]| | | |?]];
-        simpl in *; try discriminate; reflexivity. }
     apply andb_true_iff; split; [apply andb_true_iff; split; [apply andb_true_iff; split; [apply andb_true_iff; split|]|]|].
-    + (* decision *)
-      destruct (k_sc k) as [hs|b|p] eqn:SC.
-      * eapply seen_transfer; [apply model_seen_hfinal | exact MD |].
-        eapply seen_ok_w_mono; [apply waived_covers_x|]. apply http_entry_meets_spec; [exact OK|]. unfold to_x. rewrite SC. exact I.
-      * eapply seen_transfer; [apply model_seen_hfinal | exact MD |].
-        eapply seen_ok_w_mono; [apply waived_covers_x|]. apply http_entry_meets_spec; [exact OK|]. unfold to_x. rewrite SC. destruct b; exact I.
-      * unfold sc in MD. simpl in MD. unfold entry_http, x_http_respond in MD. simpl in MD.
-        destruct (k_dec k) as [? [|]| | | |?]; simpl in MD; try discriminate; reflexivity.
-    + (* proxy *)
-      eapply seen_transfer; [apply model_seen_hfinal | exact MP |].
-      eapply seen_ok_w_mono; [apply waived_covers_x|]. apply http_entry_meets_spec; [exact OK|].
-      fold c e. fold sc. destruct sc; auto.
-    + (* envoy *)
-      destruct (k_sc k) as [hs|b|p] eqn:SC.
-      * eapply seen_transfer; [apply model_seen_gfinal | exact ME |].
-        eapply seen_ok_w_mono; [apply waived_covers_x|]. apply grpc_entry_meets_spec; [exact OK|]. unfold to_x. rewrite SC. exact I.
-      * eapply seen_transfer; [apply model_seen_gfinal | exact ME |].
-        eapply seen_ok_w_mono; [apply waived_covers_x|]. apply grpc_entry_meets_spec; [exact OK|]. unfold to_x. rewrite SC. destruct b; exact I.
-      * unfold sc in ME. simpl in ME. unfold entry_grpc, x_grpc_respond in ME. simpl in ME.
-        destruct (k_env k) as [? [|]| | | |?]; simpl in ME; try discriminate; reflexivity.
-    + (* identically *)
-      destruct (w_status (waived fx k)) eqn:W; [reflexivity|]. simpl.
-      destruct (WS eq_refl) as [_ G2].
-      destruct (k_sc k) as [hs|b|p] eqn:SC.
-      * assert (NP : match sc with XProxy _ => False | _ => True end) by (unfold sc, to_x; exact I).
-        destruct (entries_same fx false (k_file k) c o sc G2 NP) as [S1 S2].
-        destruct (entries_same fx true (k_file k) c o sc G2 NP) as [S3 _].
-        apply andb_true_iff; split; [apply andb_true_iff; split|].
-        -- eapply same_transfer; [exact MD | exact ME | exact S1].
-        -- eapply same_transfer; [exact MP | exact ME | exact S3].
-        -- rewrite S2 in MP.
-           destruct (seen_of_hfinal (entry_http fx false (k_file k) c o sc)) as [a| |] eqn:F;
-             destruct (k_dec k) as [b1 [|]| | | |s1]; simpl in MD; try discriminate; simpl; try reflexivity;
-             destruct (k_prx k) as [b2 [|]| | | |s2]; simpl in MP; try discriminate; simpl; try reflexivity.
-           unfold reply_match in MD, MP.
-           repeat (apply andb_true_iff in MD as [MD ?]). repeat (apply andb_true_iff in MP as [MP ?]).
-           apply Z.eqb_eq in MD, MP.
-           repeat match goal with H : option_eqb String.eqb (r_loc _) (r_loc _) = true |- _ => apply opt_str_eqb_eq in H end.
-           rewrite <- MD, <- MP, Z.eqb_refl. simpl.
-           match goal with H1 : r_loc a = r_loc b1, H2 : r_loc a = r_loc b2 |- _ => rewrite <- H1, <- H2 end.
-           apply option_eqb_str_refl.
-      * assert (NP : match sc with XProxy _ => False | _ => True end) by (unfold sc, to_x; destruct b; exact I).
-        destruct (entries_same fx false (k_file k) c o sc G2 NP) as [S1 S2].
-        destruct (entries_same fx true (k_file k) c o sc G2 NP) as [S3 _].
-        apply andb_true_iff; split; [apply andb_true_iff; split|].
-        -- eapply same_transfer; [exact MD | exact ME | exact S1].
-        -- eapply same_transfer; [exact MP | exact ME | exact S3].
-        -- rewrite S2 in MP.
-           destruct (seen_of_hfinal (entry_http fx false (k_file k) c o sc)) as [a| |] eqn:F;
-             destruct (k_dec k) as [b1 [|]| | | |s1]; simpl in MD; try discriminate; simpl; try reflexivity;
-             destruct (k_prx k) as [b2 [|]| | | |s2]; simpl in MP; try discriminate; simpl; try reflexivity.
-           unfold reply_match in MD, MP.
-           repeat (apply andb_true_iff in MD as [MD ?]). repeat (apply andb_true_iff in MP as [MP ?]).
-           apply Z.eqb_eq in MD, MP.
-           repeat match goal with H : option_eqb String.eqb (r_loc _) (r_loc _) = true |- _ => apply opt_str_eqb_eq in H end.
-           rewrite <- MD, <- MP, Z.eqb_refl. simpl.
-           match goal with H1 : r_loc a = r_loc b1, H2 : r_loc a = r_loc b2 |- _ => rewrite <- H1, <- H2 end.
-           apply option_eqb_str_refl.
-      * destruct (XP p eq_refl) as [E1 E2]. rewrite E1, E2.
-        destruct (seen_of (k_prx k)); reflexivity.
+    + eapply dec_transfer; [exact OK | apply waived_covers_x | exact MD].
+    + eapply prx_transfer; [exact OK | apply waived_covers_x | exact MP].
+    + eapply env_transfer; [exact OK | apply waived_covers_x | exact ME].
+    + destruct (g_F2 fx k || g_F4 fx k) eqn:W; [reflexivity|]. simpl.
+      eapply entries_same_transfer; [apply (proj2 (WS eq_refl)) | exact MD | exact MP | exact ME].
     + (* the challenge handed to the request context *)
       rewrite <- UP.
       destruct (d_realm (demand_of sc)) as [realm|] eqn:DR; [|reflexivity].
